@@ -84,7 +84,7 @@ pub fn run(ctx: &mut Ctx) {
         ("localhost", vec![]),
         ("a.b.c.example.org", vec![&b"h2"[..]]),
         ("x", vec![&b"h2"[..], &b"http/1.1"[..]]),
-        ("very-long-name-aaaaaaaaaaaaaaaaaaaaaaaaaaaaaaaaaaaaaaaaaaaaaaaaaaaaaa.example.com", vec![&b"h3"[..]]),
+        ("very-long-name-aaaaaaaaaaaaaaaaaaaaaaaaaaaaaaaaaaaa.bbbbbbbbbbbbbbbbbbbbbbbbbbbbbbbbbbbbbbbbbbbbbbbbbb.example.com", vec![&b"h3"[..]]),
     ] {
         let h = rustls_hello(sni, &alpn);
         let rnd = h[11..43].to_vec();
